@@ -238,3 +238,112 @@ def lens_vcs():
                             "induction principle over the naturals (base + step => for all t <= T) applied outside the solver",
                             "TorchScript executes _lens_from_eos with the semantics of its Python source",
                             "one generic column along the reduced dimension (the function is column-wise)"])]
+
+
+# ---- P rung: the dynamic programme of _string_matching for SYMBOLIC shapes (R, H, N) -----------------------------------------------
+def dp_vcs(ctx=None):
+    """C01.P.dp: the real `_string_matching` (distance path) executed over tensors of symbolic shape (vf/pyvc/symtensor.py).
+    Spec D(n, r, j): weighted Levenshtein cost between ref[:r, n] and hyp[:j, n] (Wagner-Fischer recurrence = definition).
+    Loop invariant at the head of the iteration for hypothesis position k+1:  FORALL r <= R. row[r, n] = D(n, r, min(k, hyp_len[n])).
+    Because one vectorised row update hides an induction over the reference index r (the `del_mat` / min(1) trick), initialisation
+    and preservation are each proved by an explicit induction over r (base and step obligations), for a skolem batch element n.
+    Assumed: callee contract of `_lens_from_eos` (proved separately: C01.P.lens_first_eos), the min(dim) contract, the lin_c
+    abstraction of index * cost products, the induction principle."""
+    from vf.pyvc import symtensor as stn
+    from vf.pyvc.interp import LoopSpec, PathAbort
+
+    R, H, N, N0, R0 = z3.Ints("R H N n0 r0")
+    HL0, RL0 = z3.Ints("hyp_len_n0 ref_len_n0")  # names for the spec lengths of the skolem batch element
+    REF = z3.Function("ref", z3.IntSort(), z3.IntSort(), z3.IntSort())
+    HYP = z3.Function("hyp", z3.IntSort(), z3.IntSort(), z3.IntSort())
+    LR = z3.Function("ref_len", z3.IntSort(), z3.IntSort())
+    LH = z3.Function("hyp_len", z3.IntSort(), z3.IntSort())
+    D = z3.Function("D", z3.IntSort(), z3.IntSort(), z3.IntSort(), z3.RealSort())
+    n, r, j = z3.Ints("n r j")
+    mn = lambda a, b: z3.If(a <= b, a, b)
+    neq = lambda rr, jj, nn: z3.If(REF(rr, nn) != HYP(jj, nn), SUB, z3.RealVal(0))
+    spec = [z3.ForAll([n], D(n, 0, 0) == 0),
+            z3.ForAll([n, r], z3.Implies(r >= 1, D(n, r, 0) == D(n, r - 1, 0) + DEL)),
+            z3.ForAll([n, j], z3.Implies(j >= 1, D(n, 0, j) == D(n, 0, j - 1) + INS)),
+            z3.ForAll([n, r, j], z3.Implies(z3.And(r >= 1, j >= 1), D(n, r, j) == mn(mn(D(n, r, j - 1) + INS, D(n, r - 1, j - 1) + neq(r - 1, j - 1, n)), D(n, r - 1, j) + DEL)))]
+    out = []
+    for eos_set, include_eos, batch_first in ((True, False, False), (False, False, False), (True, True, False), (True, False, True)):
+        name = "_string_matching[symbolic R,H,N; eos=%s,include_eos=%s,batch_first=%s; distance; unequal costs]" % ("set" if eos_set else "unset", include_eos, batch_first)
+        # spec lengths: first-eos length (C01.P.lens_first_eos), +1 for the counted eos when there is one
+        RLs = (lambda nn: z3.If(LR(nn) == R, R, LR(nn) + 1)) if include_eos else (lambda nn: LR(nn))
+        HLs = (lambda nn: z3.If(LH(nn) == H, H, LH(nn) + 1)) if include_eos else (lambda nn: LH(nn))
+
+        def thunk(I, eos_set=eos_set, include_eos=include_eos, batch_first=batch_first):
+            import pydrobert.torch._string as S
+
+            I.stubs.update(stn.stubs())
+            if batch_first:
+                ref = stn.ST((N, R), lambda b, a: REF(ip.to_z3(a), ip.to_z3(b)), "long")
+                hyp = stn.ST((N, H), lambda b, a: HYP(ip.to_z3(a), ip.to_z3(b)), "long")
+            else:
+                ref = stn.ST((R, N), lambda a, b: REF(ip.to_z3(a), ip.to_z3(b)), "long")
+                hyp = stn.ST((H, N), lambda a, b: HYP(ip.to_z3(a), ip.to_z3(b)), "long")
+            calls = []
+
+            def lens_contract(I2, a, k):
+                tok = a[0]
+                calls.append(tok)
+                L = LR if len(calls) == 1 else LH  # the function asks for the reference lengths first, then the hypothesis lengths
+                I2.ex.oblige("lens.called_on_time_major_tensor_dim0", z3.And(z3.BoolVal(a[2] == 0), ip.to_z3(tok.shape[0]) == (R if len(calls) == 1 else H), ip.to_z3(tok.elem(R0, N0)) == (REF if len(calls) == 1 else HYP)(R0, N0)))
+                T = tok.shape[0]
+                I2.ex.assume(z3.ForAll([n], z3.Implies(z3.And(0 <= n, n < N), z3.And(0 <= L(n), L(n) <= ip.to_z3(T)))))
+                return stn.ST((N,), lambda a_: L(ip.to_z3(a_)), "long")
+
+            I.contracts["pydrobert.torch._string._lens_from_eos"] = lens_contract
+            if not eos_set:
+                I.ex.assume(z3.ForAll([n], z3.And(LR(n) == R, LH(n) == H)))
+            return I.call(S._string_matching, [ref, hyp, EOS if eos_set else None, include_eos, batch_first, INS, DEL, SUB, False], {})
+
+        def hyp_inv(I, f, k, HLs=HLs):  # FORALL r at the skolem batch element
+            row = f.locals["row"]
+            return z3.ForAll([r], z3.Implies(z3.And(0 <= r, r <= R), ip.to_z3(row.elem(r, N0)) == D(N0, r, mn(k, HL0))))
+
+        class DPLoop(LoopSpec):
+            def run(self, I, s, f, HLs=HLs, RLs=RLs):
+                row0 = f.locals["row"]
+                at = lambda row, rr, jj: ip.to_z3(row.elem(rr, N0)) == D(N0, rr, jj)
+                # the lengths the loop works with are the spec lengths
+                same = z3.And(ip.to_z3(f.locals["hyp_lens"].elem(N0)) == HL0, ip.to_z3(f.locals["ref_lens"].elem(N0)) == RL0)
+                I.ex.oblige("dp.lengths_are_spec_lengths", same)
+                I.ex.assume(same)  # proved just above as its own obligation; stated as a fact for the obligations that follow
+                # initialisation, by induction over r
+                I.ex.oblige("dp.init.base", at(row0, z3.IntVal(0), z3.IntVal(0)))
+                I.ex.oblige("dp.init.step", z3.Implies(z3.And(1 <= R0, R0 <= R, at(row0, R0 - 1, z3.IntVal(0))), at(row0, R0, z3.IntVal(0))))
+                ROW = stn._fresh("row", z3.IntSort(), z3.IntSort(), z3.RealSort())
+                f.locals["row"] = stn.ST((R + 1, N), lambda a, b: ROW(ip.to_z3(a), ip.to_z3(b)), "float")
+                if I.ex.choose(2) == 0:
+                    k = I.ex.fresh("int", "iter")
+                    I.ex.assume(z3.And(0 <= k, k < H))
+                    I.ex.assume(hyp_inv(I, f, k))
+                    I.assign(s.target, k + 1, f)
+                    I.exec_block(s.body, f)
+                    row1 = f.locals["row"]
+                    jn = mn(k + 1, HL0)
+                    # preservation, by induction over r
+                    I.ex.oblige("dp.step.base", at(row1, z3.IntVal(0), jn))
+                    I.ex.oblige("dp.step.ind", z3.Implies(z3.And(1 <= R0, R0 <= R, at(row1, R0 - 1, jn)), at(row1, R0, jn)))
+                    raise PathAbort()
+                I.ex.assume(hyp_inv(I, f, H))
+
+        loop = DPLoop("dp.loop", None, None, None, {})
+
+        def post(p, RLs=RLs, HLs=HLs):
+            if not api.returns(p) or not hasattr(p.value, "elem"):
+                return False
+            return [("distance_is_D_at_the_lengths", ip.to_z3(p.value.elem(N0)) == D(N0, RL0, HL0))]
+
+        pre = [INS > 0, DEL > 0, SUB > 0, z3.Not(z3.And(INS == DEL, DEL == SUB)), R >= 0, H >= 0, N >= 1, 0 <= N0, N0 < N, 0 <= R0,
+               HL0 == HLs(N0), RL0 == RLs(N0)] + spec
+        out.append(VC("C01.P.dp", name, M, "_string_matching", thunk, pre=pre, posts=[("final", post)], loops={("_string_matching", 0): loop},
+                      inputs={"R": R, "H": H, "N": N}, timeout_ms=20000,
+                      assumptions=["Wagner-Fischer recurrence = minimum over edit scripts (taken as the definition of D)",
+                                   "min(dim) contract: lower bound of the finite entries, attained at a finite entry; any() contract; tensors as index functions (vf/pyvc/symtensor.py)",
+                                   "index * cost products abstracted to lin_c(i) with lin_c(0) = 0, lin_c(i+1) = lin_c(i) + c", "float arithmetic treated as real arithmetic",
+                                   "induction over the reference index and over the loop applied outside the solver; callee contract of _lens_from_eos (C01.P.lens_first_eos)",
+                                   "configurations: return_mistakes/return_mask/return_prf_dsts off, norm off, unequal costs; (eos, include_eos, batch_first) in 4 combinations (the remaining flags are covered by the S rung)"]))
+    return out
